@@ -26,7 +26,8 @@ type fnViolation struct {
 var floatBoundary = []float64{0, math.Copysign(0, -1), 1, -1, 0.5, -0.5, 1.5, -1.5, 2.5, -2.5, 0.9999999999999999, -0.9999999999999999, 5.5, -1.9,
 	math.NaN(), math.Inf(1), math.Inf(-1), math.MaxFloat64, -math.MaxFloat64, math.SmallestNonzeroFloat64, -math.SmallestNonzeroFloat64,
 	9223372036854775807, 9223372036854775808, -9223372036854775808, 9223372036854774784, -9223372036854774784, 9223372036854777856, -9223372036854777856,
-	1e30, -1e30, 1e19, -1e19, 4503599627370496.5, 9007199254740993, 123456.789, 1e-7, 1e21, 1e-320, 0.1, 100, 12300, 0.000123}
+	1e30, -1e30, 1e19, -1e19, 4503599627370496.5, 9007199254740993, 123456.789, 1e-7, 1e21, 1e-320, 0.1, 100, 12300, 0.000123,
+	0.49999999999999994, -0.49999999999999994, 4503599627370497, -4503599627370497, 4503599627370495.5, 2251799813685248.5, 1.4999999999999998, 3.5, -3.5, 1e15 + 0.5}
 var intBoundary = []int64{0, 1, -1, 2, 7, -7, 10, 100, math.MaxInt64, math.MinInt64, math.MaxInt64 - 1, math.MinInt64 + 1, 1 << 53, (1 << 53) + 1, -(1 << 53) - 1, 1 << 31, -(1 << 31), 255, 65536}
 var stringBoundary = []string{"", "a", "ABC", "aBc Def", "ßÄöÜ", "İstanbul", "ǅ", "日本語", "\xff\xfe", "a\x00b", " ", "a,b,c", ",a,,b,", "abcabc", "true", "false", "1", "0", "t", "F", "TRUE", "123", "-45", "007",
 	"-0", "99999999999999999999", "-9223372036854775808", "9223372036854775807", "1.5", "1e3", "NaN", "Inf", "-Inf", "+Inf", "0x1p-2", "1_000", " 12 ", "12abc", strings.Repeat("x", 5000), "é", "é", "σς"}
@@ -296,6 +297,20 @@ func typeOfValue(v any) schema.Type {
 		return schema.NewStringSchema(nil, nil, nil)
 	case bool:
 		return schema.NewBoolSchema()
+	case map[string]any:
+		// string-keyed map of the type of its values (maps with values of different types are `any`)
+		var vt schema.Type
+		for _, e := range x {
+			t := typeOfValue(e)
+			if vt != nil && vt.TypeID() != t.TypeID() {
+				return schema.NewAnySchema()
+			}
+			vt = t
+		}
+		if vt == nil {
+			return schema.NewAnySchema()
+		}
+		return schema.NewMapSchema(schema.NewStringSchema(nil, nil, nil), vt, nil, nil)
 	case []any:
 		if len(x) == 0 {
 			return schema.NewListSchema(schema.NewAnySchema(), nil, nil)
@@ -457,6 +472,33 @@ func init() {
 				add("stringToFloat", "roundtrip-floatToString", []any{f}, fmt.Sprintf("stringToFloat(floatToString(%v)=%q) = %v, %v", f, s, back, err2))
 			}
 		}
+		for _, f := range sortedF {
+			if math.IsNaN(f) || math.IsInf(f, 0) {
+				continue
+			}
+			t := math.Trunc(f)
+			frac := math.Abs(f - t) // exact for doubles
+			wantRound := t
+			if frac >= 0.5 {
+				wantRound = t + math.Copysign(1, f)
+			}
+			wantFloor, wantCeil := t, t
+			if f < t {
+				wantFloor = t - 1
+			}
+			if f > t {
+				wantCeil = t + 1
+			}
+			for fn, want := range map[string]float64{"round": wantRound, "floor": wantFloor, "ceil": wantCeil, "abs": math.Abs(f)} {
+				r, err, ok := call(fn, []any{f})
+				if !ok || err != nil {
+					continue
+				}
+				if got, isF := r.(float64); !isF || got != want {
+					add(fn, "matches-definition", []any{f}, fmt.Sprintf("%s(%v) = %v, expected %v", fn, f, r, want))
+				}
+			}
+		}
 		for _, b := range []bool{true, false} {
 			s, _, ok := call("boolToString", []any{b})
 			if ok {
@@ -499,7 +541,7 @@ func init() {
 			}
 		}
 		for _, items := range [][]any{{}, {int64(1), int64(2), int64(3)}, {"a", "b"}, {map[string]any{"k": "v"}}, {[]any{int64(1)}, []any{}}} {
-			for _, cst := range []any{int64(5), "c", map[string]any{"a": int64(1)}, []any{"x"}, nil} {
+			for _, cst := range []any{int64(5), "c", map[string]any{"a": int64(1)}, map[string]any{"a": "one"}, map[string]any{"a": int64(2)}, []any{"x"}, []any{int64(7)}, nil} {
 				r, err, ok := call("bindConstants", []any{items, cst})
 				if !ok || err != nil {
 					continue
